@@ -18,6 +18,16 @@ For every generated value x of the twelve pyvizier wire types:
                                         with ValueError (documented refusal)
   M6  strict_validation=True            ParameterConfigConverter.from_proto must accept
                                         every proto the library itself produced
+  M7  received, edited, sent again      y = from_proto(wire bytes of to_proto(x)); y is changed
+                                        through its public mutators (metadata items deleted /
+                                        namespaces emptied / changed / added, parameters and
+                                        metrics removed / added, algorithm, noise, stopping
+                                        config, endpoint set or reset); then
+                                        from_proto(wire(to_proto(y))) == y and the second
+                                        conversion of that is identical. StudyConfig (which keeps
+                                        the message it was created from) and ProblemStatement;
+                                        also through the service: GetStudy -> edit -> CreateStudy
+                                        -> GetStudy
 """
 import json
 import os
@@ -36,7 +46,12 @@ RULE = ('values of 12 wire types (ParameterConfig, MetricInformation, StudyConfi
         'threshold / min-safe-fraction (incl. 0.0), algorithm/noise/stopping/endpoint, '
         'metadata in namespaces of 0..3 components with separator characters, strings '
         'and (packed) protos, all trial states, instants with microsecond fractions and '
-        'time zones, fractional elapsed seconds; plus 3 through-service slices. Built '
+        'time zones, fractional elapsed seconds; plus 3 through-service slices; plus '
+        'received-then-edited StudyConfig / ProblemStatement values (1..2 rounds of 1..4 edit '
+        'ops drawn from: delete / pop a metadata item, empty a namespace, replace the Metadata '
+        'object, change / add an item, remove / add a parameter, add a child parameter, remove / '
+        'add / flip a metric, set algorithm / noise incl. back to the default, set / clear the '
+        'stopping config, set / clear the endpoint), directly and through GetStudy/CreateStudy. Built '
         'through ParameterConfig.factory and through the add_*_param/select builders. '
         'distinct = hash of (type, structural shape of the description with strings and '
         'numbers replaced by their class); non-trivial = canonical form has >= 6 leaves.')
@@ -67,6 +82,12 @@ ASSUMPTIONS = [
     'Timestamp/Duration fields that agree to within half a microsecond; a pure re-ordering of the '
     'repeated metadata KeyValue entries (a map by meaning; the datastore itself keeps it '
     'sorted) is counted (reconversions_identical_up_to_metadata_order) but not flagged',
+    'received-then-edited cases: the expectation is the canonical form of the edited object '
+    'itself (public accessors), the edits use public mutators only (Metadata del/pop/clear/'
+    'item assignment, attribute assignment, SearchSpace.pop/add, add_*_param/select); an edit '
+    'op without a target in the received object is a no-op, an edit the builders refuse '
+    '(ValueError/TypeError) is skipped and counted; the reserved (service, PYTHIA_ENDPOINT) '
+    'item is never written by an edit (only deleted), the endpoint is edited via the attribute',
     'through-service slices run on VizierServicer(database_url="sqlite:///:memory:") '
     'called in-process (SQL datastore serialises every proto); service-assigned fields '
     '(name, id, state, client_id, start/end time) are not compared',
@@ -75,6 +96,14 @@ KINDS = ['ParameterConfig', 'MetricInformation', 'StudyConfig', 'ProblemStatemen
          'Measurement', 'Trial', 'TrialSuggestion', 'MetadataDelta', 'SuggestRequest',
          'SuggestDecision', 'EarlyStopRequest', 'EarlyStopDecisions']
 SERVICE = ['Service:study', 'Service:trial-created', 'Service:trial-lifecycle']
+EDITED = ['Edited:StudyConfig', 'Edited:ProblemStatement', 'Service:study-edited']
+# effects of edit ops that must have been exercised (and compared) at least once
+EDIT_EFFECTS = ['metadata-entry-deleted', 'metadata-namespace-emptied', 'metadata-object-replaced',
+                'metadata-entry-changed', 'metadata-entry-added', 'parameter-removed',
+                'parameter-added', 'child-parameter-added', 'metric-removed', 'metric-added',
+                'metric-goal-flipped', 'algorithm-changed:to-default', 'algorithm-changed:to-other',
+                'noise-changed:to-default', 'stopping-config-set', 'stopping-config-cleared',
+                'endpoint-changed', 'endpoint-cleared']
 REQUIRED_COUNTERS = (['shards_under_non_utc_time_zone'] + ['roundtrips:' + k for k in KINDS]
                      + ['reconversions_compared', 'wire_reparse_compared',
                         'service_readbacks:study', 'service_readbacks:trial-created',
@@ -83,7 +112,10 @@ REQUIRED_COUNTERS = (['shards_under_non_utc_time_zone'] + ['roundtrips:' + k for
                         'seen:depth>=3', 'seen:multi-parent-values', 'seen:metadata:proto',
                         'seen:metadata:ns-separator', 'seen:time:microsecond-fraction',
                         'seen:trial:INFEASIBLE', 'seen:trial:STOPPING', 'seen:safety:zero',
-                        'custom_param_refusals', 'strict_validations'])
+                        'custom_param_refusals', 'strict_validations']
+                     + ['edited_resends_compared:' + k for k in EDITED]
+                     + ['edited_second_conversions_compared']
+                     + ['seen:edit:' + e for e in EDIT_EFFECTS])
 MIN_DISTINCT = {'quick': 1500, 'thorough': 30000}
 
 # schedule: weight of each kind in the case index cycle
@@ -91,7 +123,7 @@ SCHEDULE = (['StudyConfig'] * 4 + ['ParameterConfig'] * 3 + ['Trial'] * 4
             + ['Measurement'] * 2 + ['ProblemStatement'] * 2 + ['MetricInformation']
             + ['TrialSuggestion'] + ['MetadataDelta'] * 2 + ['SuggestRequest']
             + ['SuggestDecision'] + ['EarlyStopRequest'] + ['EarlyStopDecisions'] * 2
-            + SERVICE)
+            + SERVICE + ['Edited:StudyConfig'] * 2 + ['Edited:ProblemStatement', 'Service:study-edited'])
 
 
 def plan(tier, seed):
@@ -520,6 +552,145 @@ def check_service(ctx, svc, kind, desc, index):
 
 
 # ---------------------------------------------------------------------------
+# M7 received, edited through the public mutators, sent again
+# ---------------------------------------------------------------------------
+_EDIT_SUBJECT = {'Edited:StudyConfig': 'StudyConfig', 'Edited:ProblemStatement': 'ProblemStatement',
+                 'Service:study-edited': 'StudyConfig'}
+
+
+def _wire(p):
+  return type(p).FromString(p.SerializeToString())
+
+
+def classify_edited(kind, diffs, cx, effects):
+  """Mechanism ids for differences between an edited object and what arrived.
+
+  The anomaly class is derived from which edit the difference undoes: an item / parameter /
+  metric / stopping config that the sender removed and that arrived nevertheless, a change or
+  an addition that did not arrive; everything else keeps the generic per-field id.
+  """
+  subject = _EDIT_SUBJECT[kind]
+  prefix = 'received-then-edited-mismatch'
+  did = {}
+  for name, what in effects:
+    did.setdefault(name, set()).add(what)
+  out = {}
+  for mech, ds in classify(kind, diffs, cx, prefix=prefix).items():
+    for d in ds:
+      m = mech
+      path, a, b = d['path'], d['x'], d['back']
+      if mech.startswith(prefix):
+        top = path[0] if path else ''
+        two = len(path) == 2
+        if top == 'metadata' and two and a == '<absent>' and path[1] in did.get('metadata-entry-deleted', ()):
+          m = f'received-then-edited:{subject}:metadata-entry-deleted-but-resent'
+        elif top == 'metadata' and two and b == '<absent>' and path[1] in did.get('metadata-entry-added', ()):
+          m = f'received-then-edited:{subject}:metadata-entry-added-but-not-sent'
+        elif top == 'metadata' and two and path[1] in did.get('metadata-entry-changed', ()):
+          m = f'received-then-edited:{subject}:metadata-entry-change-lost'
+        elif top == 'space' and two and a == '<absent>' and path[1] in did.get('parameter-removed', ()):
+          m = f'received-then-edited:{subject}:parameter-removed-but-resent'
+        elif top == 'space' and two and b == '<absent>' and path[1] in did.get('parameter-added', ()):
+          m = f'received-then-edited:{subject}:parameter-added-but-not-sent'
+        elif top == 'metrics' and two and a == '<absent>' and path[1] in did.get('metric-removed', ()):
+          m = f'received-then-edited:{subject}:metric-removed-but-resent'
+        elif top == 'metrics' and two and b == '<absent>' and path[1] in did.get('metric-added', ()):
+          m = f'received-then-edited:{subject}:metric-added-but-not-sent'
+        elif path == ['stopping'] and a is None and b is not None and 'stopping-config-cleared' in did:
+          m = f'received-then-edited:{subject}:stopping-config-cleared-but-resent'
+        elif path == ['stopping'] and b is None and a is not None and 'stopping-config-set' in did:
+          m = f'received-then-edited:{subject}:stopping-config-set-but-not-sent'
+        elif path == ['algorithm'] and 'algorithm-changed' in did:
+          m = f'received-then-edited:{subject}:algorithm-change-lost:' + sorted(did['algorithm-changed'])[0]
+        elif path == ['noise'] and 'noise-changed' in did:
+          m = f'received-then-edited:{subject}:noise-change-lost:' + sorted(did['noise-changed'])[0]
+        elif path == ['endpoint'] and ('endpoint-changed' in did or 'endpoint-cleared' in did):
+          m = f'received-then-edited:{subject}:endpoint-change-lost'
+      out.setdefault(m, []).append(d)
+  return out
+
+
+def check_edited(ctx, svc, kind, desc, index):
+  vz = L._vz()  # pylint: disable=protected-access
+  from vizier._src.service import vizier_service_pb2 as vs
+  case = {'kind': kind, 'desc': desc, 'index': index}
+  subject = _EDIT_SUBJECT[kind]
+  try:
+    x = L.BUILDERS[subject](desc['base'])
+  except (ValueError, TypeError) as e:
+    ctx.count('descriptions_refused_by_constructor')
+    ctx.note(f'constructor refused a {subject} description: {type(e).__name__}: {str(e)[:120]}')
+    return
+  to_proto, from_proto = L.converters()[subject]
+  canon = L.CANON[subject]
+
+  if kind == 'Service:study-edited':
+    def send(obj):
+      name = svc.create_study(to_proto(obj), 'edit')
+      got = svc.servicer.GetStudy(vs.GetStudyRequest(name=name))
+      return None, from_proto(got.study_spec)
+  else:
+    def send(obj):
+      p = to_proto(obj)
+      return p, from_proto(_wire(p))
+
+  observe(ctx, subject, canon(x))
+  try:
+    _, y = send(x)                       # y: the object as a receiver holds it
+  except Exception as e:  # pylint: disable=broad-except
+    # the plain conversion of this value fails: that is M1's / M4's finding, not this route's
+    ctx.count('edited_cases_skipped_because_plain_conversion_raised')
+    ctx.note(f'{kind}: plain conversion raised {type(e).__name__}: {str(e)[:120]}')
+    return
+  all_effects = []
+  reported = False
+  p_sent = None
+  for r, ops in enumerate(desc['rounds']):
+    effects = L.apply_edits(y, ops)
+    all_effects.extend(effects)
+    want = canon(y)
+    try:
+      p_sent, z = send(y)
+    except Exception as e:  # pylint: disable=broad-except
+      ctx.violation(f'edited-resend-raised:{kind}:{type(e).__name__}',
+                    _oneline(f'{kind}: converting / sending a received and then edited {subject} raised '
+                             f'{type(e).__name__}: {e} (round {r}, edits {effects!r})'), case)
+      return
+    ctx.count('edited_resends_compared:' + kind)
+    if any(n != 'edit-refused' for n, _ in effects):
+      ctx.count('edited_resends_compared_with_effective_edit')
+    for n, w in effects:
+      ctx.count('seen:edit:' + n + (':' + w if n in ('algorithm-changed', 'noise-changed') else ''))
+    mechs = classify_edited(kind, L.diff(want, canon(z)), want, effects)
+    if mechs:
+      reported = True
+      report(ctx, kind, mechs, case,
+             f'a received {subject} edited through its public mutators (round {r}: '
+             f'{sorted(set(n for n, _ in effects))}) and sent again does not arrive as it was sent')
+    else:
+      ctx.count('edited_resends_equal:' + kind)
+    y = z
+  ctx.case([kind, _shape(desc)],
+           nontrivial=any(n != 'edit-refused' for n, _ in all_effects) and _leaves(canon(y)) >= 6)
+  if p_sent is not None:
+    try:
+      p_again = to_proto(y)
+    except Exception as e:  # pylint: disable=broad-except
+      ctx.violation(f'second-to_proto-raised:{kind}:{type(e).__name__}',
+                    _oneline(f'{kind}: to_proto of the re-received edited {subject} raised '
+                             f'{type(e).__name__}: {e}'), case)
+      return
+    ctx.count('edited_second_conversions_compared')
+    if L.protos_compare(p_sent, p_again) == 'different':
+      if reported:
+        ctx.count('reconversion_differences_attributed_to_reported_value_loss')
+      else:
+        ctx.violation(f'second-conversion-differs:{kind}',
+                      f'{kind}: to_proto(from_proto(to_proto(edited))) is not identical to to_proto(edited)',
+                      case, {'first': L.proto_text(p_sent), 'second': L.proto_text(p_again)})
+
+
+# ---------------------------------------------------------------------------
 # M5 documented refusal
 # ---------------------------------------------------------------------------
 def check_custom_refusal(ctx):
@@ -547,6 +718,8 @@ def check_custom_refusal(ctx):
 # ---------------------------------------------------------------------------
 def gen_case(rng, kind):
   hostile = rng.random() < 0.5
+  if kind in EDITED:
+    return L.gen_edited(rng, hostile, study=_EDIT_SUBJECT[kind] == 'StudyConfig')
   if kind == 'Service:study':
     return L.gen_study_config(rng, hostile)
   if kind.startswith('Service:trial'):
@@ -566,9 +739,14 @@ def gen_case(rng, kind):
 
 
 def run_one(ctx, svc, kind, desc, index):
-  if kind.startswith('Service:'):
+  if kind.startswith('Edited:'):
+    check_edited(ctx, svc, kind, desc, index)
+  elif kind.startswith('Service:'):
     try:
-      check_service(ctx, svc, kind, desc, index)
+      if kind == 'Service:study-edited':
+        check_edited(ctx, svc, kind, desc, index)
+      else:
+        check_service(ctx, svc, kind, desc, index)
     except Exception as e:  # pylint: disable=broad-except
       # a legal value written through the public RPCs must be storable and readable
       ctx.violation(f'service-slice-raised:{kind}:{type(e).__name__}',
@@ -590,6 +768,23 @@ def set_time_zone(tz):
   time.tzset()
 
 
+def _wrap_violation(ctx, tz):
+  """Every recorded case carries the process time zone and the description as one JSON string.
+
+  (The evidence writer stringifies anything nested deeper than 12 levels, which a description
+  with a conditional tree of depth >= 2 exceeds: `desc_json` keeps the case replayable.)
+  """
+  raw_violation = ctx.violation
+
+  def violation_with_tz(mech, what, case, witness=None):
+    if isinstance(case, dict):
+      case = dict(case, tz=tz)
+      if case.get('desc') is not None:
+        case['desc_json'] = json.dumps(case['desc'], default=repr)
+    raw_violation(mech, f'[TZ={tz}] {what}', case, witness)
+  ctx.violation = violation_with_tz
+
+
 def run_shard(ctx):
   import logging
   from absl import logging as absl_logging
@@ -600,13 +795,7 @@ def run_shard(ctx):
   # under different zones (POSIX TZ strings, no tzdata needed), incl. one with DST rules
   tz = TIME_ZONES[(ctx.shard + ctx.seed) % len(TIME_ZONES)]
   set_time_zone(tz)
-  raw_violation = ctx.violation
-
-  def violation_with_tz(mech, what, case, witness=None):
-    if isinstance(case, dict):
-      case = dict(case, tz=tz)
-    raw_violation(mech, f'[TZ={tz}] {what}', case, witness)
-  ctx.violation = violation_with_tz
+  _wrap_violation(ctx, tz)
   ctx.count('shards_under_time_zone:' + tz)
   if tz != 'UTC':
     ctx.count('shards_under_non_utc_time_zone')
@@ -638,6 +827,9 @@ def replay(ctx, case):
   absl_logging.set_verbosity(absl_logging.ERROR)
   logging.getLogger().setLevel(logging.ERROR)
   kind = case['kind']
-  set_time_zone(case.get('tz', 'UTC'))
+  tz = case.get('tz', 'UTC')
+  set_time_zone(tz)
+  _wrap_violation(ctx, tz)
+  desc = json.loads(case['desc_json']) if case.get('desc_json') else case.get('desc')
   svc = Service(ctx) if kind.startswith('Service:') else None
-  run_one(ctx, svc, kind, case.get('desc'), case.get('index', 0))
+  run_one(ctx, svc, kind, desc, case.get('index', 0))
